@@ -73,14 +73,25 @@ def worker(args, scratch):
                 exp = 421 if expect_unattributed else (200 if target_user == ident.user else 403)
                 with lock:
                     expectations[url] = (ident, exp, expect_unattributed)
-                conn.send(rawhttp.build_request("GET", url, [("x-vf-id", vid)]))
-                resp = conn.read_response()
+                try:
+                    conn.send(rawhttp.build_request("GET", url, [("x-vf-id", vid)]))
+                    resp = conn.read_response()
+                except Exception as e:  # noqa
+                    if k > 0 and not common.is_timeout(e):
+                        # the agent closed the connection after an earlier answer on it (e.g. 'Connection: close' on a refusal): the
+                        # statement promises no keep-alive; what matters is that nothing of this request went anywhere
+                        bump("connection_closed_by_the_agent_after_an_answer")
+                        if w.upstream(vid):
+                            viol("refused-request-relayed", {"url": url, "note": "no response, yet relayed"})
+                        return
+                    raise
                 with lock:
                     res["evaluations"] += 1
                 ups = w.upstream(vid)
                 wit = {"url": url, "conn_identity": {"user": ident.user, "pid": ident.pid, "uid": ident.uid}, "status": resp.status, "expected": exp,
                        "upstream": [x.raw_head.decode("latin-1") for x in ups]}
-                if resp.status != exp:
+                # 'refused': the statement names no status - any HTTP error status, and nothing upstream (judged below)
+                if (resp.status != 200) if exp == 200 else not (400 <= resp.status < 600):
                     viol("wrong-outcome-for-connection-identity" if not expect_unattributed else "reused-port-without-record-not-refused", wit)
                 if exp == 200:
                     if len(ups) != 1:
@@ -165,12 +176,21 @@ def worker(args, scratch):
                 conn = w.open("imds", e)
                 for target_prog in PROGS:
                     vid = "c07-%d-x%d-%d-%s" % (args["shard"], k, gi, target_prog)
-                    conn.send(rawhttp.build_request("GET", "/p/%s/%s" % (target_prog, vid), [("x-vf-id", vid)]))
-                    st = conn.read_response().status
+                    raw = rawhttp.build_request("GET", "/p/%s/%s" % (target_prog, vid), [("x-vf-id", vid)])
+                    try:
+                        conn.send(raw)
+                        st = conn.read_response().status
+                    except Exception as ex:  # noqa
+                        if common.is_timeout(ex):
+                            raise
+                        conn.close()        # closed by the agent after the previous answer: a new connection of the same process
+                        conn = w.open("imds", e)
+                        conn.send(raw)
+                        st = conn.read_response().status
                     exp = 200 if target_prog == prog else 403
                     with lock:
                         res["evaluations"] += 1
-                    if st != exp:
+                    if (st != 200) if exp == 200 else not (400 <= st < 600):
                         viol("connection-judged-as-the-program-of-an-earlier-connection-of-the-same-pid", {"pid": e.pid, "programs_in_this_pid": seq[:gi + 1], "current_program": prog,
                                                                                                          "url_for_program": target_prog, "status": st, "expected": exp})
                 conn.close()
@@ -303,7 +323,8 @@ def worker(args, scratch):
             for j in lines:
                 checked += 1
                 if unattr:
-                    if j.get("userName") != "empty":
+                    # how the agent words 'nobody' in its summary is its own business; it must not name one of the callers
+                    if j.get("processCmdLine") in [i.cmdline for i in idents] or j.get("userName") in USERS:
                         viol("summary-names-an-identity-for-unattributed-connection", {"url": url, "summary": j})
                 elif j.get("userId") != ident.uid or j.get("processCmdLine") != ident.cmdline:
                     viol("summary-names-another-connections-identity", {"url": url, "summary": j, "expected_uid": ident.uid, "expected_cmd": ident.cmdline})
